@@ -316,6 +316,8 @@ class Gen:
                         if self.chance(max(p["p_raise"], 0.04)):
                             inner.insert(self.rnd.randint(1, len(inner)), {"op": "raise"})
                         acts = [{"op": "txn", "actions": inner}]
+                        if self.chance(0.15):      # asynchronous placement (the simulated exchange treats it like any other)
+                            acts[0]["async"] = True
                     if self.chance(p["p_raise"]):
                         acts.append({"op": "raise"})
                     script["%s|%d|%s" % (m["id"], u["pt"], phase)] = acts
